@@ -102,7 +102,7 @@ type c08layout struct {
 	blockFirst []bool // per element: it is the first entry of its block
 	blockLast  []bool // per element: it is the last entry of its block (set when the next block starts)
 	// counters
-	fill62, fill63, fill64, overflow65, nsSwitchAtFull, nsSwitchPadded, w10, blocks int
+	fill62, fill63, fill64, overflow65, nsSwitchAtFull, nsSwitchPadded, w10, blocks, sameAsPrevious int
 }
 
 func (l *c08layout) fillNow() int { return l.pos % 64 }
@@ -269,6 +269,10 @@ func c08genList(r *core.R, tableNS []string, maxTotal int) ([]c08id, []c08group,
 			v = 0
 		case x == 1:
 			v = 1
+		case x < 5 && len(list) > 0:
+			// the value the previous group ended on (ids of different types share numbers)
+			v = list[len(list)-1].v
+			lay.sameAsPrevious++
 		default:
 			lo, hi := c08widthRange(pickW())
 			v = c08randIn(r, lo, hi)
